@@ -85,6 +85,8 @@ def peel_desc(draw):
 @st.composite
 def unary_desc(draw):
     two_way = draw(st.integers(0, 3)) > 0
+    if draw(st.integers(0, 3)) == 0:
+        return ["StatPerm", {"kind": draw(st.sampled_from(["rot", "swap"])), "two_way": draw(st.booleans())}]
     if draw(st.booleans()):
         return ["Reduce", {"xf": draw(st.sampled_from(XF)), "two_way": two_way}]
     return ["StatXf", {"xf": draw(st.sampled_from(XF_NONID)), "two_way": two_way}]
@@ -161,6 +163,14 @@ def pack_desc(draw, has_stats=True, finite=False, atoms_only=False, allow_iterat
         expansion.append(s)
     if not have_expand and draw(st.integers(0, 9)) < 9:
         expansion[-1].append(draw(expand_desc()))
+    if has_stats and draw(st.integers(0, 5)) == 0:
+        tw = draw(st.booleans())
+        where = draw(st.sampled_from(["initial", "expansion"]))
+        pair = [["StatPerm", {"kind": "rot", "two_way": tw}], ["StatPerm", {"kind": "swap", "two_way": tw and draw(st.booleans())}]]
+        if where == "initial":
+            initial.extend(pair)
+        else:
+            expansion[0].extend(pair)
     if draw(st.integers(0, 3)) == 0:
         sym.append(["LetterSwap", {"shift": draw(st.integers(1, 2))}])
     return {
